@@ -21,7 +21,10 @@
 (*         console's packing equals the cell's pixels exactly, in canonical *)
 (*         form (see Canon), -1 if no character and colours give these      *)
 (*         pixels.                                                          *)
-(* The attach event describes the console: kind ("rec" recording grid,      *)
+(* The attach event describes the console: its screen (pw x ph pixels - for *)
+(* text mode the character cells of the mapped screen memory -, glyph size  *)
+(* gw x gh, offy pixel rows reserved above the text), kind ("rec" recording *)
+(* grid,                                                                    *)
 (* "vga" VgaTextConsole, "fb" VesaFbConsole) and for "fb" the font's glyph  *)
 (* classes gc[ch + 1]: -1 the glyph has no pixel set, -2 all pixels set,    *)
 (* otherwise the lowest character code with the same glyph; and gi[ch + 1]: *)
@@ -70,7 +73,13 @@ Checks18(m, g, c, e, a0, a1) ==
       v     == Viewport(g, e.data, e.vy)
       bads  == sized /\ \E i \in 1..(g.w * g.h) : e.scr[i] # Canon(c, v[i])
   IN
-  << <<"C18", a0 = 0 /\ a1 = 0 /\ e.cc # 0,
+  << <<"C18", att /\ (e.w * e.gw > e.pw \/ e.offy + e.h * e.gh > e.ph),
+       IF ~att THEN <<>> ELSE
+       <<"the console reports a grid of", e.w, e.h, "cells of", e.gw, e.gh, "pixels, but only", e.pw \div e.gw,
+         (e.ph - e.offy) \div e.gh, "cells are completely on its screen of", e.pw, e.ph, "pixels, text from row", e.offy>> >>,
+     <<"C18", (a0 = 1 \/ a1 = 1) /\ e.res # "ok",
+       <<"call on an active terminal did not complete (panic / no return in the terminal or in the console it drives)", e.k, e.res>> >>,
+     <<"C18", a0 = 0 /\ a1 = 0 /\ e.cc # 0,
        <<"console touched while the terminal is inactive: calls", e.cc, e.calls>> >>,
      <<"C18", a0 = 0 /\ a1 = 0 /\ ~att /\ e.cp = 1 /\ m.scr # <<>> /\ e.scr # m.scr,
        <<"console contents changed while the terminal is inactive">> >>,
